@@ -21,9 +21,10 @@ import ICal.Driver.BodiesWalk
 import ICal.Driver.BodiesSer
 import ICal.Driver.BodiesCDict
 import ICal.Driver.BodiesSE
+import ICal.Driver.BodiesParse
 open ICal.Driver
 
-def handlers : List (String → List String → Option String) := [handleText, handleFold, handleLine, handleTree, handleStartEnd, handleCodec, handleCDict, handleWalk, handleTz, handleAlarm, handleRecur, handleEncode, handleZoned, handleBodies, handleBodiesParser, handleBodiesLine, handleBodiesFold, handleBodiesText, handleBodiesAlarm, handleBodiesWalk, handleBodiesSer, handleBodiesCDict, handleBodiesSE]
+def handlers : List (String → List String → Option String) := [handleText, handleFold, handleLine, handleTree, handleStartEnd, handleCodec, handleCDict, handleWalk, handleTz, handleAlarm, handleRecur, handleEncode, handleZoned, handleBodies, handleBodiesParser, handleBodiesLine, handleBodiesFold, handleBodiesText, handleBodiesAlarm, handleBodiesWalk, handleBodiesSer, handleBodiesCDict, handleBodiesSE, handleBodiesParse]
 
 def step (line : String) : String :=
   let l := line.dropRightWhile (fun c => c == (Char.ofNat 10) || c == (Char.ofNat 13))
